@@ -120,7 +120,8 @@ func MakeCORSMiddlewareWithResolver(resolveRules CORSRulesResolver, next http.Ha
 			requestedMethod = strings.TrimSpace(strings.ToUpper(r.Header.Get(accessControlRequestMethodHeader)))
 		}
 
-		requestedHeaders := parseHeaderList(r.Header.Get(accessControlRequestHeadersHeader))
+		// A list-valued header may be split over several field lines (RFC 9110 5.3).
+		requestedHeaders := parseHeaderList(strings.Join(r.Header.Values(accessControlRequestHeadersHeader), ","))
 
 		matchedRule, matchedOriginPattern, ok := findMatchingRule(rules, origin, requestedMethod, requestedHeaders, isPreflightRequest(r))
 		if !ok {
